@@ -240,6 +240,8 @@ def prove(ctx, propfile_rel, extra_targets=()):
 
 def harness_bin(ctx, release=False):
     hdir = os.path.join(ROOT, "harness")
+    write_if_changed(os.path.join(hdir, "Cargo.toml"),
+                     open(os.path.join(hdir, "Cargo.toml.in")).read().replace("@REPO@", REPO))
     lock = os.path.join(hdir, "Cargo.lock")
     if not os.path.exists(lock):
         shutil.copy(os.path.join(REPO, "Cargo.lock"), lock)
